@@ -195,6 +195,12 @@ def check_case(case, acc):
             # a hook of this call edits the tree itself (nested structural call): the prescribed log no longer applies,
             # but every hook must still observe the documented before/after state, and the links must stay consistent
             check_brackets(step, layer2=False)
+            if op[0] == "del":
+                # `del n.children` detaches n's children and nobody else's: whatever a hook of this call did meanwhile (the
+                # harness's hooks only detach a child of n or re-file it under another node), no node is detached FROM ANOTHER parent
+                foreign = [e for e in step.log if e[0] in ("pre_detach", "post_detach") and e[2] != op[1]]
+                if foreign:
+                    raise Violation("hook-log", "%s: del children of node %s detached nodes from other parents: %s (full log %s)" % (ctx, op[1], foreign, step.log))
             problem = mut.consistency_problem(universe, rec.labels)
             if problem:
                 raise Violation("in-hook-state", "%s: after a call whose hook evicted a sibling: %s" % (ctx, problem))
